@@ -250,6 +250,7 @@ func c16Payloads() []payload {
 		{desc: "float dim", dims: d(map[string]interface{}{"d1": 1.5, "d2": "str"}), vals: d(map[string]interface{}{"a": 1.0})},
 		{desc: "bool dim for IF/WHERE string compare", dims: d(map[string]interface{}{"d1": true, "d2": false}), vals: d(map[string]interface{}{"a": 1.0})},
 		{desc: "time dim", dims: d(map[string]interface{}{"d1": time.Unix(1, 0)}), vals: d(map[string]interface{}{"a": 1.0})},
+		{desc: "byte-slice dims (unhashable as map keys)", dims: d(map[string]interface{}{"d1": []byte{1, 2}, "d2": []byte("x")}), vals: d(map[string]interface{}{"a": 1.0})},
 		{desc: "many dims", dims: manyDims(200), vals: d(map[string]interface{}{"a": 1.0})},
 		{desc: "empty key and empty names", dims: d(map[string]interface{}{"": ""}), vals: d(map[string]interface{}{"": 1.0})},
 		{desc: "magic _points value", dims: base, vals: d(map[string]interface{}{"_points": 5.0, "a": 1.0})},
@@ -487,7 +488,8 @@ func runC16Worker(e *Env) error {
 				db.Insert("inbound", vts, dims, vals)
 				nValid++
 				for _, hd := range []map[string]interface{}{{"d1": 5, "d2": "s"}, {"d1": nil, "d2": nil}, {"d1": true, "d2": 1.5}, {"d2": 1}, {"d1": "", "d2": -1}, {"d1": 1.5}, {"d1": "v1,v2,,", "d2": 99999999999}} {
-					for _, hv := range []map[string]interface{}{{"a": 1.0, "b": 2.0}, {"a": -5.0}, {"a": 1e12, "b": 0.0}, {"a": nan()}, {"b": 1.0}} {
+					for _, hv := range []map[string]interface{}{{"a": 1.0, "b": 2.0}, {"a": -5.0}, {"a": 1e12, "b": 0.0}, {"a": nan()}, {"b": 1.0},
+						{"a": []float64{1, 2, 3}, "b": []int{4, 5}}, {"a": []float64{7, 8}}} { // array values: several row-store updates per point
 						db.Insert("inbound", vts, hd, hv)
 					}
 				}
@@ -521,6 +523,11 @@ func runC16Worker(e *Env) error {
 			if waitCaughtUp(db, "t", 0) != nil {
 				res["alive"] = "hang"
 			} else {
+				// the stored dimensions now flow through query-side code as well (IN-subquery collects them in a map)
+				res["subquery"] = classify(func() error {
+					_, _, err := runQuery(db, "SELECT _points FROM t WHERE d1 IN (SELECT d1 FROM t GROUP BY d1) GROUP BY d2", true)
+					return err
+				})
 				res["alive"] = classify(func() error {
 					_, rows, err := runQuery(db, "SELECT _points FROM t WHERE d1 = 'v1' OR d1 = 'v2' GROUP BY _", true)
 					if err != nil {
@@ -535,6 +542,9 @@ func runC16Worker(e *Env) error {
 					}
 					return nil
 				})
+				if res["subquery"] == "panic" && res["alive"] == "ok" {
+					res["alive"] = "panic" // an error is fine, a panic reaching the caller is not
+				}
 			}
 		}
 		done <- true
